@@ -392,7 +392,11 @@ func configs() []cfg {
 		return as
 	}
 	if os.Getenv("C11_ONLY") != "" {
-		return []cfg{{A(os.Getenv("C11_ONLY")), 0, false, 2, true}}
+		seq := 2
+		if v := os.Getenv("C11_SEQ"); v != "" {
+			fmt.Sscan(v, &seq)
+		}
+		return []cfg{{A(os.Getenv("C11_ONLY")), 0, false, seq, true}}
 	}
 	cs := []cfg{
 		{A("m0e0"), 1, false, 0, false}, {A("e0m0"), 1, false, 0, false}, {A("m0m0"), 0, false, 0, false}, {A("e0e0"), 0, true, 0, false}, {A("m0e1"), 0, false, 0, false},
@@ -401,6 +405,10 @@ func configs() []cfg {
 		{A("m0e1m3"), 0, false, 3, true},
 		// two events of one source parked (items 2, hosts 1) while the numbers are read
 		{A("e0e0"), 1, false, 2, true},
+		// three events of one source delivered in sequence and a fourth concurrently: two are parked, the lookup
+		// completes, and the other two (which missed the cache before it completed) are parked while the
+		// dispatch goroutine of the first two is anywhere between its events (seeded change C11b)
+		{A("e0e0e0e0"), 0, false, 3, true},
 	}
 	if vrt.Thorough() {
 		cs = append(cs, cfg{A("e0m0"), 2, false, 0, false}, cfg{A("m0m1e0"), 0, false, 0, false}, cfg{A("e0e1m0"), 1, true, 0, false}, cfg{A("m0e0m0"), 2, false, 0, false}, cfg{A("e0m0e0"), 2, true, 0, false}, cfg{A("m0e0m1e1"), 1, false, 0, false}, cfg{A("m0m0e0e0"), 1, true, 0, false}, cfg{A("e0m0m1"), 2, true, 0, false}, cfg{A("m0e0e1m2"), 1, true, 0, false}, cfg{A("m0m0m0m0"), 0, false, 2, true},
